@@ -81,7 +81,7 @@ func conservation(sc *step.Case, r *step.Result, v *fw.V) {
 }
 
 func divergence(rule string) bool {
-	for _, p := range []string{"pending-", "ends-", "storm-", "not-complete", "waiter-blocked", "noflow-error-", "vars-mismatch", "early-", "cease-count", "token-conservation"} {
+	for _, p := range []string{"pending-", "ends-", "storm-", "not-complete", "waiter-blocked", "noflow-error-", "vars-mismatch", "early-", "cease-count", "token-conservation", "condition-error-trace-missing"} {
 		if strings.HasPrefix(rule, p) {
 			return true
 		}
